@@ -70,11 +70,12 @@ struct ParM {
     int shadow = -1;                 // twin handle in the shadow vnacal_t (never deleted there)
     int uses = 0;                    // adds (into still existing vnacal_new_t) that referenced it
 };
-struct Std { int kind = 0; int h1 = 0, h2 = 0; std::vector<cd> v1, v2; bool unknown = false; int also = -1; };   // also: unknown `other` of a correlated h1 (solved with it)   // kind 0 reflect (1-port), 1 double reflect, 2 through
+struct Std { int kind = 0; int h1 = 0, h2 = 0; std::vector<cd> v1, v2; bool unknown = false; int also = -1; std::vector<int> unks; };   // unks: unknown / correlated handles of a 2-port standard (and their unknown `other`)   // also: unknown `other` of a correlated h1 (solved with it)   // kind 0 reflect (1-port), 1 double reflect, 2 through
 struct SlotPar { std::vector<cd> v; int twin = -1; bool unknown = false; int also = -1; int corr_other = -1; };   // corr_other: the `other` of a correlated handle is registered with it   // what a slot knows about a handle it used (survives the handle's deletion)
 struct NewM {
     vnacal_new_t *vn = nullptr, *svn = nullptr;
     std::map<int, SlotPar> seen;    // 1-port reflect handles registered in this vnacal_new_t
+    std::set<int> regd;             // every handle number an ACCEPTED standard of this vnacal_new_t registered (incl. the `other` of a correlated one)
     int type = 0, ports = 1, band = 0, F = 0; std::vector<double> f; cd z0;   // f = bands[band][0..F-1]
     Box box;
     std::vector<Std> stds; std::set<int> handles;
@@ -435,12 +436,12 @@ struct H {
 
     // ---------------------------------------------------------- vnacal_new_t
     int pick_slot(bool used) { std::vector<int> v; for (int i = 0; i < 3; i++) if ((nw[i].vn != nullptr) == used) v.push_back(i); return v.empty() ? -1 : v[c.draw(v.size())]; }
-    void op_new_alloc() {
+    void op_new_alloc(int force_ports = 0) {
         int s = pick_slot(false);
         if (s < 0) return;
         NewM &n = nw[s];
         n = NewM();
-        n.ports = c.chance(1, 4) ? 2 : 1;
+        n.ports = force_ports ? force_ports : c.chance(1, 4) ? 2 : 1;
         n.type = n.ports == 1 ? TYPES1[c.draw(8)] : TYPES2[c.draw(6)];
         n.F = (int)c.range(1, 3);
         n.band = (int)c.draw(3);
@@ -538,6 +539,8 @@ struct H {
         PBT_CHECK(c, rc == 0, "C16.add_failed", "step %d: vnacal_new_add_* with live handles failed: %s", step, log.text().c_str());
         PBT_CHECK(c, src == 0, "C16.harness", "shadow add failed: %s", slog.text().c_str());
         std::vector<int> used; if (st.kind == 0) used = {st.h1, st.also}; else if (st.kind == 1) used = {st.h1, st.h2};
+        for (int h : used) if (h >= 0) n.regd.insert(h);
+        if (st.kind == 0 && st.h1 >= 3 && pars.at(st.h1).kind == ParM::CORRELATED) n.regd.insert(pars.at(st.h1).other);
         for (int h : used) if (h >= 3 && n.handles.insert(h).second) pars.at(h).uses++;
         n.stds.push_back(st);
     }
@@ -560,7 +563,7 @@ struct H {
         NewM &n = nw[s];
         bool det = determined(n);
         if (!det && !c.chance(1, 6)) { op_add_std(s); return; }     // mostly solve determined systems; sometimes a premature one
-        std::set<int> unk; for (auto &st : n.stds) if (st.unknown) { unk.insert(st.h1); if (st.also >= 0) unk.insert(st.also); }
+        std::set<int> unk; for (auto &st : n.stds) if (st.unknown) { if (st.kind == 0) { unk.insert(st.h1); if (st.also >= 0) unk.insert(st.also); } for (int u : st.unks) unk.insert(u); }
         c.note("solve(slot %d)%s%s", s, det ? "" : "  [not yet determined: outcome not asserted]", unk.empty() ? "" : "  [with unknown parameters]");
         log.clear(); slog.clear();
         int rc = vnacal_new_solve(n.vn);
@@ -713,7 +716,7 @@ struct H {
         PBT_CHECK(c, rc == 0, "C16.add_failed", "step %d: vnacal_new_add_single_reflect_m with live handle %d failed: %s", step, h, log.text().c_str());
         PBT_CHECK(c, src == 0, "C16.harness", "shadow add failed: %s", slog.text().c_str());
         Std st; st.kind = 0; st.h1 = h; st.v1 = sp.v; st.unknown = sp.unknown; st.also = sp.also;
-        n.stds.push_back(st); n.seen[h] = sp;
+        n.stds.push_back(st); n.seen[h] = sp; n.regd.insert(h); if (sp.corr_other >= 0) n.regd.insert(sp.corr_other);
         if (live) for (int u : {h, sp.also}) if (u >= 3 && pars.count(u) && n.handles.insert(u).second) pars.at(u).uses++;
     }
     int make_filler() {        // a cheap scalar (3 in 4) or vector parameter
@@ -783,6 +786,107 @@ struct H {
         if (determined(n) && c.chance(3, 4)) { op_solve(s); op_add_calibration(s); }
     }
 
+    // ---- refused standards inside a slot's history: a rejected add leaves the vnacal_new_t unchanged ----------------
+    // an ACCEPTED double reflect (h1 on port 1, h2 on port 2) on the 2x2 slot s; the handles are live and usable there
+    void add_double(int s, int h1, int h2) {
+        NewM &n = nw[s];
+        Std st; st.kind = 1; st.h1 = h1; st.h2 = h2;
+        std::vector<std::vector<dcx>> cells(4, std::vector<dcx>(n.F));
+        for (int k = 0; k < n.F; k++) {
+            st.v1.push_back(value_of(h1, n.band, k)); st.v2.push_back(value_of(h2, n.band, k));
+            cd S[4] = {st.v1[k], 0, 0, st.v2[k]}, M[4]; n.box.meas2(k, S, M); for (int q = 0; q < 4; q++) cells[q][k] = mkc(M[q]);
+        }
+        for (int h : {h1, h2}) if (h >= 3) {
+            const ParM &p = pars.at(h);
+            if (p.kind == ParM::UNKNOWN || p.kind == ParM::CORRELATED) { st.unknown = true; st.unks.push_back(h); }
+            if (p.kind == ParM::CORRELATED) { n.regd.insert(p.other); if (p.other >= 3 && pars.at(p.other).kind == ParM::UNKNOWN) st.unks.push_back(p.other); }
+        }
+        dcx *ptr[4] = {cells[0].data(), cells[1].data(), cells[2].data(), cells[3].data()};
+        c.note("add_double_reflect_m(slot %d, %s, %s)", s, hs(h1).c_str(), hs(h2).c_str());
+        log.clear(); slog.clear();
+        int rc = vnacal_new_add_double_reflect_m(n.vn, ptr, 2, 2, h1, h2, 1, 2);
+        int src = vnacal_new_add_double_reflect_m(n.svn, ptr, 2, 2, twin_of(h1), twin_of(h2), 1, 2);
+        PBT_CHECK(c, rc == 0, "C16.add_failed", "step %d: vnacal_new_add_double_reflect_m(%s, %s) with live handles failed: %s", step, hs(h1).c_str(), hs(h2).c_str(), log.text().c_str());
+        PBT_CHECK(c, src == 0, "C16.harness", "shadow add failed: %s", slog.text().c_str());
+        for (int h : {h1, h2}) { n.regd.insert(h); if (h >= 3 && n.handles.insert(h).second) pars.at(h).uses++; }
+        for (int u : st.unks) if (pars.count(u) && n.handles.insert(u).second) pars.at(u).uses++;
+        n.stds.push_back(st);
+    }
+    int make_unknown_of(int guess) {      // a fresh unknown parameter with the given (live / predefined) guess
+        ParM p; p.kind = ParM::UNKNOWN; p.other = guess; p.n = cover_of(guess); p.band = band_of(guess);
+        p.chain_n = guess < 3 ? 0 : pars.at(guess).chain_n; p.chain_band = guess < 3 ? -1 : pars.at(guess).chain_band;
+        p.truth.assign(12, cd(NAN, NAN));
+        for (int b = 0; b < 3; b++) for (int k = 0; k < 4; k++) if (usable(guess, b, k + 1)) p.truth[b * 4 + k] = value_of(guess, b, k) + gen_small(0.04);
+        log.clear();
+        int h = vnacal_make_unknown_parameter(vc, guess);
+        p.shadow = vnacal_make_unknown_parameter(sh, twin_of(guess));
+        c.note("make_unknown(guess %s) -> h%d", hs(guess).c_str(), h);
+        made(h, p, "vnacal_make_unknown_parameter");
+        return h;
+    }
+    void op_refused_add() {
+        // a 2x2 slot
+        int s = -1;
+        { std::vector<int> v; for (int i = 0; i < 3; i++) if (nw[i].vn && nw[i].ports == 2) v.push_back(i);
+          if (v.empty() || (pick_slot(false) >= 0 && c.chance(1, 3))) { op_new_alloc(2); v.clear(); for (int i = 0; i < 3; i++) if (nw[i].vn && nw[i].ports == 2 && nw[i].stds.empty()) v.push_back(i); }
+          if (v.empty()) return;
+          s = v[c.draw(v.size())]; }
+        NewM &n = nw[s];
+        if (n.stds.size() >= 20) return;
+        // the first cell: a parameter this slot has not registered yet -- a fresh unknown (mostly), a fresh correlated, or a fresh scalar
+        int kind = c.weighted({6, 2, 2});
+        int P;
+        if (kind == 0) P = make_unknown_of((int[]){VNACAL_SHORT, VNACAL_OPEN, VNACAL_MATCH}[c.draw(3)]);
+        else if (kind == 1) {
+            int o = c.boolean() ? make_unknown_of(VNACAL_OPEN) : (int)c.draw(3);
+            ParM p; p.kind = ParM::CORRELATED; p.other = o; p.n = 4; p.band = -1;
+            double sig[1] = {c.real(0.001, 0.1)};
+            log.clear();
+            P = vnacal_make_correlated_parameter(vc, o, nullptr, 1, sig); p.shadow = vnacal_make_correlated_parameter(sh, twin_of(o), nullptr, 1, sig);
+            p.truth.assign(12, cd(NAN, NAN)); for (int b = 0; b < 3; b++) for (int k = 0; k < 4; k++) p.truth[b * 4 + k] = value_of(o, b, k);
+            c.note("make_correlated(other %s, 1 sigma) -> h%d", hs(o).c_str(), P);
+            made(P, p, "vnacal_make_correlated_parameter");
+        } else { P = make_filler(); if (P < 3) return; if (!usable(P, n.band, n.F)) return; }
+        // the later cell: a handle that is not live and that this slot never registered
+        int D = pick_dead_handle();
+        if (D >= 0 && (pars.count(D) || n.regd.count(D) || D < 3)) { int top = pars.empty() ? 3 : pars.rbegin()->first + 1; if (!dead.empty()) top = std::max(top, *dead.rbegin() + 1); D = top + 5; }
+        std::vector<std::vector<dcx>> cells(4, std::vector<dcx>(n.F, mkc(0.25, -0.125)));
+        dcx *ptr[4] = {cells[0].data(), cells[1].data(), cells[2].data(), cells[3].data()};
+        int S4[4] = {P, VNACAL_ZERO, VNACAL_ZERO, D};
+        bool bad_first = c.chance(1, 6);       // sometimes the invalid handle comes first: refused before anything is registered
+        if (bad_first) std::swap(S4[0], S4[3]);
+        int api = (int)c.draw(3);
+        c.note("%s(slot %d, S = [%s, 0; 0, %s])  [%d is not a live handle: must be refused]", api == 0 ? "add_double_reflect_m" : api == 1 ? "add_line_m" : "add_mapped_matrix_m", s, S4[0] == D ? std::to_string(D).c_str() : hs(S4[0]).c_str(), S4[3] == D ? std::to_string(D).c_str() : hs(S4[3]).c_str(), D);
+        log.clear(); errno = 0;
+        int rc = api == 0 ? vnacal_new_add_double_reflect_m(n.vn, ptr, 2, 2, S4[0], S4[3], 1, 2) : api == 1 ? vnacal_new_add_line_m(n.vn, ptr, 2, 2, S4, 1, 2) : vnacal_new_add_mapped_matrix_m(n.vn, ptr, 2, 2, S4, 2, 2, nullptr);
+        PBT_CHECK(c, rc == -1, "C16.invalid_handle_accepted", "step %d: a standard whose S matrix contains handle %d (deleted / never allocated) was accepted by slot %d", step, D, s);
+        c.label(bad_first ? "refused-add:invalid-cell-first" : kind == 0 ? "refused-add:first-cell-unknown" : kind == 1 ? "refused-add:first-cell-correlated" : "refused-add:first-cell-known");
+        // from here on everything must be as if that call had never been made (the clone never sees it)
+        if (c.chance(1, 4)) {
+            // the only reference to P came from the refused call: deleting P releases it, and this slot does not know it
+            c.note("delete_parameter(h%d)  [only ever passed to the refused call]", P);
+            log.clear();
+            PBT_CHECK(c, vnacal_delete_parameter(vc, P) == 0, "C16.delete_live_handle_failed", "step %d: vnacal_delete_parameter(%d) of a live handle failed: %s", step, P, log.text().c_str());
+            pars.erase(P); dead.insert(P);
+            int S2[4] = {P, VNACAL_ZERO, VNACAL_ZERO, VNACAL_MATCH};
+            c.note("add_line_m(slot %d, S = [%d, 0; 0, MATCH])  [deleted, and the refused call must not have registered it: refused]", s, P);
+            log.clear();
+            rc = vnacal_new_add_line_m(n.vn, ptr, 2, 2, S2, 1, 2);
+            PBT_CHECK(c, rc == -1, "C16.refused_add_left_registration", "step %d: handle %d was only ever passed to a REFUSED standard of slot %d and then deleted, but slot %d still accepts it: the refused call left it registered", step, P, s, s);
+            c.label("refused-add:then-deleted-and-refused");
+            check_params("refused add");
+            return;
+        }
+        // accepted standards that use the first-cell parameter again, and a second fresh unknown after it
+        add_double(s, P, (int[]){VNACAL_MATCH, VNACAL_SHORT, VNACAL_OPEN}[c.draw(3)]);
+        c.label("reuse-after-refused-add");
+        if (c.chance(3, 4)) { int W = make_unknown_of((int[]){VNACAL_OPEN, VNACAL_SHORT, VNACAL_MATCH}[c.draw(3)]); add_double(s, (int[]){VNACAL_OPEN, VNACAL_MATCH, VNACAL_SHORT}[c.draw(3)], W); c.label("reuse-after-refused-add:second-unknown"); }
+        // complete the set with known standards, solve, store: solved values, clone without the refused call, slot contents
+        for (int i = 0; i < 12 && !determined(n); i++) op_add_std(s);
+        check_params("refused add");
+        if (determined(n) && c.chance(7, 8)) { op_solve(s); op_add_calibration(s); }
+    }
+
     // the usual life of a calibration in one go: allocate (or take a slot), add standards until the
     // set determines the error terms, solve, store
     void op_whole_calibration() {
@@ -807,7 +911,7 @@ struct H {
         size_t mean = (size_t)(4 + c.size / 2);
         for (size_t nops = 0; (c.mark(), c.more(nops, mean, 100)); nops++) {
             step++;
-            int op = c.weighted({5, 3, 3, 2, 5, 4, 10, 6, 6, 5, 8, 2, 2, 8, 3});    // new alternatives go to the END: recorded tapes keep their meaning
+            int op = c.weighted({5, 3, 3, 2, 5, 4, 10, 6, 6, 5, 8, 2, 2, 8, 3, 3});    // new alternatives go to the END: recorded tapes keep their meaning
             bool cal_op = false, par_op = false;
             switch (op) {
             case 0: op_make_scalar(); par_op = true; break;
@@ -824,7 +928,8 @@ struct H {
             case 11: op_new_free(); par_op = true; break;
             case 12: op_probe_value(); break;
             case 13: op_whole_calibration(); cal_op = par_op = true; break;
-            default: op_fill_slot(); cal_op = par_op = true; break;
+            case 14: op_fill_slot(); cal_op = par_op = true; break;
+            default: op_refused_add(); cal_op = par_op = true; break;
             }
             check_tables("after op");
             if (par_op) check_params("after op");
